@@ -1,7 +1,8 @@
 CFG = {
     "modules": ["Parsley.Props.C06", "Parsley.Lemmas.FiltersA85", "Parsley.Lemmas.FiltersInflate", "Parsley.Lemmas.A85Reject",
                 "Parsley.Lemmas.InflateReject", "Parsley.Lemmas.InflateFixedBits", "Parsley.Lemmas.InflateFixed",
-                "Parsley.Spec.DeflateFixed"],
+                "Parsley.Spec.DeflateFixed", "Parsley.Spec.DeflateDyn", "Parsley.Lemmas.InflateDynHuff",
+                "Parsley.Lemmas.InflateDynHdr", "Parsley.Lemmas.InflateDyn", "Parsley.Props.C06Dyn"],
     "theorems": [
         "Parsley.C06.hex_roundtrip", "Parsley.C06.a85_roundtrip",
         "Parsley.C06.flate_glue_complete", "Parsley.C06.flate_glue_rejects",
@@ -33,21 +34,34 @@ CFG = {
         "Parsley.C06.inflate_fixed_roundtrip", "Parsley.C06.inflate_fixed_literals_roundtrip",
         "Parsley.C06.inflate_fixed_literals_final_roundtrip", "Parsley.C06.zlibFixedLiterals_eq",
         "Parsley.C06.inflate_zlibFixedLiterals_roundtrip",
+        # C06d: DYNAMIC-Huffman blocks and streams mixing stored / fixed / dynamic blocks, over the spec-side encoder
+        # Spec/DeflateDyn.lean (Lemmas/InflateDyn.lean; canonical-Huffman lemma Lemmas/InflateDynHuff.lean; header parser
+        # round trip Lemmas/InflateDynHdr.lean); non-vacuity instances in Props/C06Dyn.lean
+        "Parsley.C06.inflate_dynamic_roundtrip", "Parsley.C06.flate_dynamic_roundtrip",
+        "Parsley.C06.inflate_one_dynamic_block", "Parsley.C06.inflate_blocks_roundtrip", "Parsley.C06.planOkB_sound",
+        "Parsley.C06.Dyn.canon_code", "Parsley.C06.Dyn.lensOk_bounds", "Parsley.C06.Dyn.tableOk_lensOk",
+        "Parsley.C06.Dyn.tableOk_complete", "Parsley.C06.Dyn.construct_count", "Parsley.C06.Dyn.construct_symbol",
+        "Parsley.C06.Dyn.leftOver_construct", "Parsley.C06.Dyn.dynamicTables_hdr", "Parsley.C06.Dyn.readLens_rle",
+        "Parsley.C06.Dyn.clLens_loop", "Parsley.C06.Dyn.codes_gen", "Parsley.C06.Dyn.block_stored",
+        "Parsley.C06.Dyn.block_dyn", "Parsley.C06.Dyn.blocks_mixed", "Parsley.C06.exPlan_ok",
     ],
     "partial": {
-        "flate_huffman_roundtrip (not a theorem)":
-            "PROVED now: stored blocks (inflate_stored_roundtrip: any partition, any trailing bytes) and FIXED-Huffman "
-            "blocks (inflate_fixed_roundtrip_final / flate_fixed_roundtrip: the stream the spec-side encoder "
-            "Spec/DeflateFixed.lean writes from ANY valid LZ77 factorisation - literals and <length, distance> pairs, "
-            "every length/distance symbol and extra-bit value, overlapping copies, copies reaching into earlier blocks, "
-            "any cutting into blocks, final block empty or not - decodes to the payload; the older literal-only generator "
-            "encoder is an instance: zlibFixedLiterals_eq). STILL NOT a theorem: DYNAMIC-Huffman blocks (implemented "
-            "executably in Model/Inflate.lean; they enter chain_roundtrip through the hypothesis `Inflate.inflate e = ok x`, "
-            "LayerEnc.flateAny) and streams mixing block types; that the real zlib and the Lean inflate agree on those is "
-            "established by the correspondence run only (payloads compressed by the real zlib at levels 0-9, all boundary "
-            "sizes, both decoders must return the payload). That the executable greedy factoriser of the generators "
-            "(DeflateFixed.factorise) always yields a valid factorisation is not proved either: the judge evaluates the "
-            "theorem's hypothesis (`resolveBlocks ... = some payload`) on every generated case.",
+        "flate_foreign_encoder_streams (not a theorem)":
+            "PROVED now for ALL THREE block types and any mixture of them (inflate_dynamic_roundtrip = inflate_blocks_roundtrip / "
+            "flate_dynamic_roundtrip / LayerEnc.flateDyn): the zlib stream the spec-side encoder Spec/DeflateDyn.lean writes from ANY "
+            "valid plan - stored (<= 65535 bytes, aligned wherever they fall), fixed-Huffman and DYNAMIC-Huffman blocks in any order; "
+            "a dynamic block with ANY valid code-length assignment (<= 15 bits, Kraft equality, or the two incomplete sets zlib's "
+            "inflate_table takes: no distance code, a single code of length 1 - mirrored from Model/Inflate.tableOk), any HLIT / HDIST / "
+            "HCLEN, a complete code-length code of <= 7 bits, ANY run-length spelling with symbols 16/17/18 (runs crossing from the "
+            "literal/length into the distance lengths), canonical codes of RFC 1951 3.2.2, ANY LZ77 factorisation (copies reaching "
+            "back into earlier blocks of any type) - decodes to the payload, any trailing bytes (crux: Dyn.canon_code, the table "
+            "`construct` builds decodes the canonical code of every used symbol; Dyn.dynamicTables_hdr, the header parser round trip). "
+            "Earlier: inflate_stored_roundtrip, inflate_fixed_roundtrip_final. STILL NOT a theorem, by nature: that the REAL zlib (C "
+            "library behind flate2) computes the same function as the Lean inflate - established by the correspondence run (real zlib "
+            "output at levels 0-9 through both decoders; the spec encoders' stored / fixed / dynamic output through both decoders); "
+            "streams of OTHER encoders enter chain_roundtrip through the hypothesis `Inflate.inflate e = ok x` (LayerEnc.flateAny). "
+            "That the executable generators (DeflateFixed.factorise, DeflateDyn.mkHdr / spell / assignLens) always yield valid plans is "
+            "not proved: the judge evaluates the theorem's hypothesis (planOkB, sound by planOkB_sound) on every generated case.",
         "Parsley.C06.corrupt_is_error":
             "the statement of corrupt_is_error itself is unchanged (illegal ASCIIHex character, missing ASCIIHex EOD, "
             "misaligned ASCII85 z, every stream the zlib decoder rejects; errors propagate through outer layers). The "
@@ -67,13 +81,23 @@ CFG = {
     "shrink": False,
     "rule": "corpus (DESIGN 4 #6-#10 inputs, trim/framing oddities) first; rt: recipes built by the Lean spec encoders - every "
             "chain of length <= 2 (quick; all 258 chains <= 3 thorough) over {ASCIIHex, ASCII85, Flate-stored, Flate-fixed-Huffman "
-            "literal block, Flate-fixed-Huffman LZ77 factorisation closed by an empty block / with a data-carrying final block} "
+            "literal block, Flate-fixed-Huffman LZ77 factorisation closed by an empty block / with a data-carrying final block, "
+            "Flate stream of dynamic / fixed / stored blocks from Spec/DeflateDyn.lean} "
             "x payload lengths {0..5,7,8,9,16,17,63} x {/Filter name, array, array + parallel /DecodeParms} x EOL after "
             "data {none, LF, CRLF, CR}; payloads of 32767..100000 bytes (thorough: to 3 MB) in stored blocks of any partition and (to 200000 bytes) in "
             "fixed-Huffman blocks; fixed-Huffman factorisations written by the spec encoder Spec/DeflateFixed.lean for 56 (thorough "
             "168) seed classes (candidate distances 1..32768 hitting every distance symbol, match cap 3..258, both spellings of "
             "length 258, forced literals, 1..100000 tokens per block) x self-similar payloads with period 1..32768 - the judge "
             "checks each factorisation with the spec's resolveBlocks, and BOTH the real zlib and the Lean inflate must return the payload; "
+            "DYNAMIC-Huffman / mixed-block plans written by the spec encoder Spec/DeflateDyn.lean (F mode 4, dynPlan): 108 (thorough "
+            "540 + 24 large) seed classes = 108 header styles (codes balanced / as long as possible: 15 bits, 7 on the code-length alphabet / "
+            "irregular; HLIT, HDIST minimal or 29 / 29; every one of the 286 / 30 / 19 symbols coded; run-length spelling literal / irregular "
+            "/ longest runs incl. 138 zeros; HCLEN minimal or 15; one-symbol alphabets as a single 1-bit code or completed) x 5 block-type "
+            "patterns (dynamic only, dynamic/fixed, stored/dynamic/fixed, per-block styles, stored/dynamic/dynamic/fixed) x 7 block sizes x "
+            "empty final blocks of each type x payloads {empty, 1 byte, all 256 values, runs, text-like, self-similar period 1..32768}; "
+            "also as a layer of every chain of section 1, under predictors, in random recipes and in the zlib corruptions; corpus/C06/dynamic.case: "
+            "hand-built headers (HCLEN minimum, HLIT/HDIST maximum, symbol 16 crossing into the distance lengths, empty dynamic blocks); the judge "
+            "checks each plan with planOkB, and BOTH the real zlib and the Lean inflate must return the payload; "
             "random recipes (white space sprinkled by seed, digit case, odd-digit shorthand, z / !!!!! per group, partition "
             "of stored blocks, parameter dictionaries {null, <<>>, <</Predictor 1>>, <</Colors 3 /Columns 5>>}; one recipe in four with a PREDICTOR layer "
             "at a random position); predictor layers (P: FlateDecode over the forward PNG/TIFF filter of Spec/Predictor.lean, the four Flate encoders): predictor "
@@ -101,8 +125,9 @@ CFG = {
         "staged chars and u32 overflow checks of the dev profile: the harness is built with overflow-checks = true; in a "
         "release build an ASCII85 group >= 2^32 would wrap silently inside the crate instead of being caught)",
         "modelled, not verified: flate2 read::ZlibDecoder + zlib as the executable Lean inflate (Model/Inflate.lean; "
-        "stored and fixed-Huffman blocks proved against the spec-side encoders, dynamic-Huffman blocks by correspondence with "
-        "real zlib output at levels 0-9); std::io::Read::read_to_end "
+        "stored, fixed-Huffman and dynamic-Huffman blocks and their mixtures proved against the spec-side encoders; agreement with "
+        "the real zlib by correspondence: real zlib output at levels 0-9 and the spec encoders' output through both decoders); "
+        "std::io::Read::read_to_end "
         "as `readToEnd` over a pull-style decoder with a progress measure",
         "rz cases: the harness's native generator (flate2 compressor, small hex/ASCII85 writers) is trusted to emit encodings "
         "of the payload it states; the judge only compares the implementation's output with that payload",
@@ -140,10 +165,13 @@ LEVEL = {
             "single-digit final group - stating exactly where the real code is more lenient than ISO 32000: a lone final digit "
             "!..r is dropped, leading/trailing VT/U+0085/U+00A0 are trimmed) and flate_stored_corrupt_is_error (every "
             "truncation and every altered Adler-32 / LEN / NLEN / FCHECK / CMF byte of a stored-block stream is a "
-            "TransformError). DYNAMIC-Huffman zlib streams and corruptions of Huffman-coded streams are NOT covered by a "
-            "theorem: there the executable Lean inflate is tied to the real zlib (levels 0-9) and the whole model to "
-            "decode_stream by the correspondence run of every check, which also runs the real zlib on the spec encoders' "
-            "fixed-Huffman output. Three defects of /repo (Flate truncation at 32 KiB / truncated streams accepted; ASCIIHex "
+            "TransformError). DYNAMIC-Huffman blocks and streams mixing the three block types are covered too "
+            "(inflate_dynamic_roundtrip / flate_dynamic_roundtrip over the spec-side encoder Spec/DeflateDyn.lean: any valid code "
+            "lengths incl. the incomplete sets zlib takes, any HLIT/HDIST/HCLEN, any run-length spelling, any LZ77 factorisation, any "
+            "order of block types; crux canon_code: the decoding table built from code lengths decodes the RFC 1951 canonical code). "
+            "Corruptions of Huffman-coded streams are NOT covered by a theorem, and the real zlib is an external C library: there the "
+            "executable Lean inflate is tied to the real zlib (its own output at levels 0-9, and the spec encoders' stored / fixed / "
+            "dynamic output) and the whole model to decode_stream by the correspondence run of every check. Three defects of /repo (Flate truncation at 32 KiB / truncated streams accepted; ASCIIHex "
             "rejecting all input; ASCII85 rejecting z) are witnessed by theorems about the pre-repair glue and repaired by "
             "pending_fixes/C06-01..03.",
 }
